@@ -292,6 +292,9 @@ struct Engine
         if (form >= 3 && i == j) return;
         static const char* names[] = {"ref = lvalue ref", "ref = const_ref", "ref = const lvalue ref", "ref = std::move(ref)", "ref = prvalue ref"};
         begin("assign", fmt("form=%s,target=%zu,source=%zu", names[form], i, j));
+        // a copy assignment between two different elements runs the copy assignment of every object whose type has one of its own
+        const uint64_t cnt_before = Cnt8::copies();
+        const size_t cnt_expect = (form < 3 && i != j) ? objects_of_type(Cfg::fields(), m.e[j].f, "Cnt8") : 0;
         if constexpr (Cfg::ALL_COPY_ASSIGNABLE)
         {
             if (form == 0)
@@ -315,6 +318,8 @@ struct Engine
         }
         else if (form == 4)
             vec[i] = vec[j];
+        if (Cnt8::copies() - cnt_before < cnt_expect)
+            viol("copy_bypasses_copy_operations", fmt("%s had to copy-assign %zu objects of a type with user-provided copy / trivial move assignment, its copy operations ran %" PRIu64 " times", names[form], cnt_expect, Cnt8::copies() - cnt_before));
         m.e[i].f = m.e[j].f;
         if (form >= 3) m.e[j] = moved_from(m.e[j]);
         cross_read(names[form]);
